@@ -222,6 +222,27 @@ func TestCheck(t *testing.T) {
 				continue
 			}
 			v := int(w[p])<<8 | int(w[p+1])
+			// every option, at whatever depth (IA sub-options, relayed messages, NTP and vendor sub-options), resized to
+			// every small length with all enclosing lengths kept consistent: the option's own layout rule decides alone
+			if v <= 64 && len(w) <= 700 {
+				for nl := 0; nl <= 34; nl++ {
+					if nl == v {
+						continue
+					}
+					for variant := 0; variant < 2; variant++ {
+						fill := func(n int) []byte { return make([]byte, n) }
+						if variant == 1 {
+							if nl < v {
+								break // cutting does not depend on the fill
+							}
+							fill = func(n int) []byte { return gen4.Bytes(rng, n) }
+						}
+						if x := gen6.Resize(w, res.LenFields, p, nl, fill); x != nil {
+							judge(r, "resize", -1, x)
+						}
+					}
+				}
+			}
 			for _, nvl := range []int{v - 1, v + 1, 0, 0xffff, v + 2, v - 2} {
 				if nvl < 0 || nvl == v {
 					continue
